@@ -8,6 +8,7 @@
    file by the composition layer, on top of C05_produce_reader_set and C05_produce_ranges below. *)
 From Coq Require Import ZArith List Bool.
 Require Import Prim.Exn Gen.GenConst Model.Sentence Model.Nmea Model.DecodeApi Proofs.ExnLemmas Proofs.NmeaProofs.
+Require Import Model.Tbq Model.Assemble Model.Reader Spec.AssembleSpec Proofs.AssembleProofs Proofs.ReaderProofs Proofs.ReaderIsolation.
 Import ListNotations.
 Open Scope Z_scope.
 
@@ -49,3 +50,99 @@ Example C05_nonvacuous :
   is_ok (produce [33; 42; 120; 86; 68; 77; 44; 49; 44; 49; 44; 44; 65; 44; 49; 53; 77; 44; 48; 42; 53; 66]) = true /\
   decode_api false [[33; 65; 73; 86; 68; 77; 44; 49; 44; 49; 44; 44; 65; 44; 44; 48; 42; 48; 48]] = Raise (Lib MissingPayloadException).
 Proof. vm_compute. repeat split; reflexivity. Qed.
+
+(* ================================================================================================================
+   The reader-loop half (composition of the parser, the tag block queue and the two reassembly loops: Model/Reader.v).
+   [uni] is the oracle for int() of non-ASCII digit text of the tag block model: every statement holds for all oracles.
+   [step] ranges over the two loops: stream_step (iterating IterMessages / ByteStream / BinaryIOStream / FileReaderStream /
+   SocketStream) and queue_step (NMEAQueue.put_line). *)
+
+Theorem C05_stream_is_reader_loop : is_reader_loop stream_step.
+Proof. exact stream_is_reader_loop. Qed.
+Print Assumptions C05_stream_is_reader_loop.
+
+Theorem C05_queue_is_reader_loop : is_reader_loop queue_step.
+Proof. exact queue_is_reader_loop. Qed.
+Print Assumptions C05_queue_is_reader_loop.
+
+(* C05b: for EVERY sequence of lines (arbitrary byte strings), with or without a tag block queue, the reader consumes every
+   line and ends normally -- no exception of any kind leaves the loop. *)
+Theorem C05_readers_never_raise : forall uni step use_tbq lines, is_reader_loop step ->
+  exists outs st', rd_run uni step use_tbq rd_init lines = (outs, Ok st') /\ length outs = length lines.
+Proof.
+  intros uni step use_tbq lines H.
+  destruct (rd_run_total uni step use_tbq lines rd_init H (rd_inv_init)) as [outs [st' [E [L _]]]].
+  exists outs, st'. split; assumption.
+Qed.
+Print Assumptions C05_readers_never_raise.
+
+(* C05c: a line that does not parse, and a sentence whose tag block the queue rejects, change nothing and deliver
+   nothing; any block of unparsable lines can be deleted from the input without changing what the other lines yield. *)
+Theorem C05_skip_unparsable : forall uni step use_tbq st line e, is_reader_loop step ->
+  produce line = Raise e -> rd_step uni step use_tbq st line = Ok (st, [], []).
+Proof. exact rd_skip_unparsable. Qed.
+Print Assumptions C05_skip_unparsable.
+
+Theorem C05_skip_bad_tag_block : forall uni step st line s e, is_reader_loop step ->
+  produce line = Ok s -> tbq_put uni (snd st) s = Raise e -> rd_step uni step true st line = Ok (st, [], []).
+Proof. exact rd_skip_bad_tag_block. Qed.
+Print Assumptions C05_skip_bad_tag_block.
+
+Theorem C05_skipped_lines_are_noops : forall uni step use_tbq l1 bad l2 st, is_reader_loop step ->
+  Forall (fun l => exists e, produce l = Raise e) bad ->
+  rd_run uni step use_tbq st (l1 ++ bad ++ l2) =
+  match rd_run uni step use_tbq st l1 with
+  | (o1, Ok st1) => let '(o2, fin) := rd_run uni step use_tbq st1 l2 in
+                    (o1 ++ map (fun _ => ([], [])) bad ++ o2, fin)
+  | (o1, Raise e) => (o1, Raise e)
+  end.
+Proof. exact rd_skipped_lines_are_noops. Qed.
+Print Assumptions C05_skipped_lines_are_noops.
+
+(* C05d: a line only touches the reassembly slot of the sentence it parses to (state level) ... *)
+Theorem C05_slot_independence : forall uni step use_tbq b w tq line b' w' tq' outs touts s, is_reader_loop step ->
+  rd_step uni step use_tbq ((b, w), tq) line = Ok (((b', w'), tq'), outs, touts) ->
+  (forall a, produce line = Ok (SAis a) -> s <> slot_of a) ->
+  buf_get b' s = buf_get b s.
+Proof. exact rd_slot_independence. Qed.
+Print Assumptions C05_slot_independence.
+
+(* ... and (trace level) what a reader delivers from slot s -- raw text, payload, bits, validity, sequence id, channel of
+   every message, in order -- is exactly what the same loop delivers when it is fed ONLY the lines that store a fragment
+   into s: no other line, malformed or not, can change, delay, duplicate or suppress a message of s. *)
+Theorem C05_slot_isolation : forall uni hs step use_tbq lines s, catches_reader_set hs ->
+  (forall st p t, step st p t = generic_step hs st p t) ->
+  let ins := rd_inputs uni use_tbq [] lines in
+  slot_outs s ins (map fst (fst (rd_run uni step use_tbq rd_init lines))) =
+  slot_outs s (filter (touches s) ins) (fst (asm_run step asm_init (filter (touches s) ins))).
+Proof. exact rd_slot_isolation. Qed.
+Print Assumptions C05_slot_isolation.
+
+(* non-vacuity of the reader level: a two-fragment message with a whitespace-only line, a sentence with a fragment count
+   of 0 and a sentence with a non-ASCII talker in between is delivered, by both loops, with a tag block queue attached *)
+Example C05_readers_nonvacuous :
+  let f1 := [33; 65; 73; 86; 68; 77; 44; 50; 44; 49; 44; 51; 44; 65; 44; 49; 53; 77; 44; 48; 42; 48; 48] in
+  let f2 := [33; 65; 73; 86; 68; 77; 44; 50; 44; 50; 44; 51; 44; 65; 44; 54; 55; 70; 44; 48; 42; 48; 48] in
+  let bad1 := [32; 32] in
+  let bad2 := [33; 65; 73; 86; 68; 77; 44; 48; 44; 49; 44; 51; 44; 65; 44; 49; 53; 77; 44; 48; 42; 48; 48] in
+  let bad3 := [33; 65; 255; 86; 68; 77; 44; 50; 44; 49; 44; 51; 44; 65; 44; 49; 53; 77; 44; 48; 42; 48; 48] in
+  let uni := fun (_ : Z) (_ : list Z) => @None Z in
+  map (fun o => length (fst o)) (fst (rd_run uni stream_step true rd_init [f1; bad1; bad2; bad3; f2])) = [0; 0; 0; 0; 1]%nat /\
+  map (fun o => length (fst o)) (fst (rd_run uni queue_step true rd_init [f1; bad1; bad2; bad3; f2])) = [0; 0; 0; 0; 1]%nat.
+Proof. vm_compute. split; reflexivity. Qed.
+
+(* The except tuples, the minimum buffer size and the line filter written by hand in Model/Assemble.v are the ones the
+   translator reads from pyais/stream.py and pyais/queue.py on every run (Gen/GenConst.v): a changed literal or a changed
+   exception tuple in the source breaks this obligation by name. *)
+Theorem C05_literals_tied :
+  stream_except = STREAM_EXCEPT /\ queue_except = QUEUE_EXCEPT /\
+  STREAM_MIN_SLOTS = 255 /\ QUEUE_MIN_SLOTS = 255 /\ MAX_FRAG_CNT <= STREAM_MIN_SLOTS /\
+  (forall l, should_parse l = match l with [] => false | c :: _ => existsb (Z.eqb c) SHOULD_PARSE_FIRST end) /\
+  STREAM_SKIP_LEN = 10.
+Proof.
+  repeat split; try reflexivity.
+  - unfold MAX_FRAG_CNT, STREAM_MIN_SLOTS. intro H; discriminate H.
+  - intros [|c r]; [reflexivity|]. unfold should_parse, SHOULD_PARSE_FIRST. cbn [existsb].
+    rewrite Bool.orb_false_r, Bool.orb_assoc. reflexivity.
+Qed.
+Print Assumptions C05_literals_tied.
